@@ -1,6 +1,7 @@
 package main
 
 import (
+	"runtime"
 	"os"
 	"fmt"
 	"go/ast"
@@ -88,6 +89,12 @@ func (x *Exec) evalBool(st *State, sx *SX, env *Env) (out string) {
 		if r := recover(); r != nil {
 			if se, ok := r.(specError); ok {
 				x.errs = append(x.errs, fmt.Sprintf("%s: spec error in %s: %s", x.funcKeyOf(x.fn), sx.String(), se.msg))
+				out = "false"
+				return
+			}
+			if re, ok := r.(runtime.Error); ok {
+				// an ill-typed term (e.g. a name that no longer denotes a local of the function): unevaluable, not a crash
+				x.errs = append(x.errs, fmt.Sprintf("%s: spec error in %s: cannot be evaluated (%v)", x.funcKeyOf(x.fn), sx.String(), re))
 				out = "false"
 				return
 			}
@@ -440,6 +447,9 @@ func (x *Exec) eval(sx *SX, env *Env) Val {
 		x.specFail("idx of %s", typeStr(v.T))
 	case "mapin", "mapget":
 		m, k := ev(0), ev(1)
+		if m.T == nil {
+			x.specFail("%s of untyped term %s", head, args[0].String())
+		}
 		mt, ok := types.Unalias(m.T).Underlying().(*types.Map)
 		if !ok {
 			x.specFail("%s of non-map", head)
